@@ -72,12 +72,18 @@ class C19(Prop):
             kind = ["reliability", "murphy", "bias"][k % 3]
             n = rng.randint(2, 14)
             nm = 1 if rng.random() < 0.6 else rng.randint(2, 3)
+            if kind != "bias" and rng.random() < 0.06:
+                nm = 11  # unnamed numpy columns: the labels "10" and "2" do not sort like the positions
             y = [rng.randint(-4, 12) / 2 for _ in range(n)]
             cols = [[rng.randint(-4, 12) / 2 for _ in range(n)] for _ in range(nm)]
             f = rng.choice(["mean", "mean", "median", "expectile", "quantile"])
             lv = rng.choice([0.5, 0.25, 0.75, 0.125])
             w = None if rng.random() < 0.5 else [rng.choice([1.0, 2.0, 0.5, 3.0]) for _ in range(n)]
             c = {"stream": kind, "y": y, "cols": cols, "f": f, "level": lv, "w": w}
+            if kind != "bias" and 2 <= nm <= 3 and rng.random() < 0.5:
+                from .decomp_common import gen_colnames
+
+                c["colnames"] = gen_colnames(rng, nm)  # a polars frame whose column names are NOT in sorted order
             if kind != "bias" and rng.random() < 0.15:
                 c["y2d"] = True  # observations as an (n, 1) matrix
             if nm == 1 and rng.random() < 0.15:
@@ -192,6 +198,12 @@ class C19(Prop):
             import polars as pl
 
             P = pl.Series(case["pname"], P)
+        if case.get("colnames") and len(case["colnames"]) == len(case["cols"]) and case["stream"] != "bias":
+            import polars as pl
+
+            P = pl.DataFrame({nm_: [float(v) for v in col] for nm_, col in zip(case["colnames"], case["cols"])})
+            if case.get("pdtype"):
+                P = P.cast(pl.Float32)
         w = None if case["w"] is None else np.array(case["w"])
         plt, fig, ax = fresh_axes()
         cfg0 = get_config()
@@ -384,13 +396,17 @@ class C19(Prop):
                 fit = c["y"] if case["diagram_type"] == "reliability" else [x - v for x, v in zip(c["x"], c["y"])]
                 if any(b < a - 1e-9 for a, b in zip(fit, fit[1:])) or any(b < a for a, b in zip(c["x"], c["x"][1:])):
                     return f"curve {k} is not a monotone function: x={c['x']} fit={fit}"
-                if nm >= 2 and c["label"] != str(k):
-                    return f"curve {k} is labelled {c['label']!r}"
+                want_label = case["colnames"][k] if case.get("colnames") else str(k)
+                if nm >= 2 and c["label"] != want_label:
+                    return f"curve {k} is labelled {c['label']!r}, the name of that column is {want_label!r}"
             return None
         if case["stream"] == "murphy":
             if len(lines) != nm:
                 return f"{len(lines)} curves for {nm} models"
             for k, c in enumerate(lines):
+                want_label = case["colnames"][k] if case.get("colnames") else str(k)
+                if nm >= 2 and c["label"] != want_label:
+                    return f"Murphy curve {k} is labelled {c['label']!r}, the name of that column is {want_label!r}"
                 if any(v < -1e-12 for v in c["y"]):
                     return f"Murphy curve {k} is negative: {min(c['y'])!r}"
             return None
